@@ -2,6 +2,8 @@ package harness
 
 import (
 	"fmt"
+	"reflect"
+	"sort"
 	"strings"
 	"testing"
 
@@ -192,7 +194,15 @@ func checkRT(c *RTCase) (msg, skipped string) {
 				if r.HasMsg {
 					args = append(args, r.Msg)
 				}
-				items = append(items, valid.GenValidKV(r.Key, args...))
+				// the helper gets the caller's slice (spread) and is called twice with it: it must leave the
+				// slice alone and write the same text both times
+				before := append([]string(nil), args...)
+				item := valid.GenValidKV(r.Key, args...)
+				again := valid.GenValidKV(r.Key, args...)
+				if item != again || !reflect.DeepEqual(before, args) {
+					err = fmt.Sprintf("GenValidKV(%q, %q...) wrote %q, then %q for the same slice (slice afterwards: %q)", r.Key, before, item, again, args)
+				}
+				items = append(items, item)
 			}
 			rm.Set(c.Fields, items...)
 			i += k
@@ -219,6 +229,15 @@ func checkRT(c *RTCase) (msg, skipped string) {
 			if pieces[i] != kept[i] {
 				err = fmt.Sprintf("piece %d of ValidNamesSplit(%q) was %q and reads %q after later calls of the splitter", i, first, kept[i], pieces[i])
 			}
+		}
+		// the result belongs to the caller: editing it does not change what a later split of the same text returns
+		edited := valid.ValidNamesSplit(first)
+		for i := range edited {
+			edited[i] = "edited by the caller"
+		}
+		sort.Strings(edited)
+		if second := valid.ValidNamesSplit(first); !reflect.DeepEqual(second, kept) && err == "" {
+			err = fmt.Sprintf("ValidNamesSplit(%q) returned %q, and after the caller edited an earlier result of the same text %q", first, kept, second)
 		}
 	}); p != nil {
 		return fmt.Sprintf("panic: %v", p), ""
